@@ -87,9 +87,19 @@ _add(Family(
     {"quick": 3, "thorough": 4},
 ))
 
+_add(Family(
+    "ctx",
+    ["h\x00t\x00t\x00p\x00:\x00/\x00/\x00a\x00.\x00c\x00o\x00m\x00", B64_URL.decode(), HEX_URL.decode(), "&#104;&#116;&#116;&#112;&#58;&#47;&#47;&#97;&#46;&#99;&#111;",
+     'atob("aHR0cDovL2EuY28=")', "'a' + 'b.exe'", "http://ex%61mple.com/a/../b", "1.2.3.4", "bob@example.org", "strlen", " ", "chr(65)", "unescape('%41')",
+     "FromBase64String('R1ZASA==') -bxor 35", "\\\\a.com\\abc\\x.exe", "StrReverse('moc.a')"],
+    {"quick": 2, "thorough": 3},
+    wraps=[(b"x CreateObject(", b")"), (b'y "powershell -c ', b'" z'), (b"(cmd /c ", b")"), (b"zz /abc/def/", b".ghi")],
+    note="decodable items placed inside undecoded contexts that start at an offset > 0",
+))
+
 STREAM_FAMILIES = {
-    "quick": ["shell", "pwsh", "net", "concat", "kw", "mix", "xml", "b64hex", "esc", "winpath"],
-    "thorough": ["shell", "pwsh", "net", "concat", "kw", "mix", "xml", "b64hex", "esc", "winpath"],
+    "quick": ["shell", "pwsh", "net", "concat", "kw", "mix", "xml", "b64hex", "esc", "winpath", "ctx"],
+    "thorough": ["shell", "pwsh", "net", "concat", "kw", "mix", "xml", "b64hex", "esc", "winpath", "ctx"],
 }
 
 
